@@ -37,9 +37,9 @@ theorem wide_shl_arith {L H P Q : Nat} (hP : 0 < P) (hQ : 0 < Q) (hL : L < P * Q
   have b2 : lq + P * hr < P * Q := by nlinarith
   rw [e, Nat.add_mul_mod_self_left, Nat.mod_eq_of_lt (lt_sq b1 b2)]
 
-/-- T05.3 (left, `BITS ≤ s < 2·BITS` and `0 < s < BITS`) -/
+/-- T05.3 (left, every `s < 2·BITS`: `BITS ≤ s`, `0 < s < BITS` and `s = 0`) -/
 theorem shlVartimeWide_spec {lo hi : List Nat} (hlo : WF lo) (hhi : WF hi) (hl : hi.length = lo.length)
-    {s : Nat} (hs0 : 0 < s) (hs : s < 2 * (64 * lo.length)) :
+    {s : Nat} (hs : s < 2 * (64 * lo.length)) :
     ∃ rl rh, shlVartimeWide lo hi s = some ((rl, rh), WMAX) ∧
       val rl + B ^ lo.length * val rh = ((val lo + B ^ lo.length * val hi) * 2 ^ s) % (B ^ lo.length * B ^ lo.length) ∧
       WF rl ∧ WF rh ∧ rl.length = lo.length ∧ rh.length = lo.length := by
@@ -58,11 +58,10 @@ theorem shlVartimeWide_spec {lo hi : List Nat} (hlo : WF lo) (hhi : WF hi) (hl :
       Nat.add_mul, Nat.mul_assoc, Nat.add_mul_mod_self_left]
   · simp only [hge, if_false]
     have hlt : s < 64 * lo.length := Nat.not_le.mp hge
-    have hlt2 : 64 * lo.length - s < 64 * lo.length := by omega
     have ⟨a1, a2, a3, a4⟩ := overflowingShlVartime_spec hlo hlt
-    have ⟨b1, b2, b3, b4⟩ := overflowingShrVartime_spec hlo hlt2
+    have ⟨b2, b3, b4⟩ := shrV_val hlo (64 * lo.length - s)
     have ⟨c1, c2, c3, c4⟩ := overflowingShlVartime_spec (s := s) hhi (by rw [hl]; exact hlt)
-    rw [expect_mk a1, expect_mk b1, expect_mk c1]
+    rw [expect_mk a1, expect_mk c1, wrappingShrVartimeU_eq hlo]
     have ⟨ov, ow, ol⟩ := val_ubitor b4 c4 (by rw [b3, c3, hl])
     refine ⟨_, _, rfl, ?_, a4, ow, a3, by rw [ol, b3]⟩
     rw [ov, a2, b2, c2, hl]
@@ -83,16 +82,6 @@ theorem shlVartimeWide_overflow (lo hi : List Nat) {s : Nat} (h : 2 * (64 * lo.l
     shlVartimeWide lo hi s = some ((uzero lo.length, uzero lo.length), 0) := by
   unfold shlVartimeWide; simp [h]
 
-/-- the code as written PANICS for `shift = 0`: the complementary shift by `BITS` is `expect`ed (finding F1) -/
-theorem shlVartimeWide_zero (lo hi : List Nat) (hn : lo ≠ []) : shlVartimeWide lo hi 0 = none := by
-  have hlen : 0 < lo.length := List.length_pos_iff.mpr hn
-  unfold shlVartimeWide
-  have h1 : ¬ (2 * (64 * lo.length) ≤ 0) := by omega
-  have h2 : ¬ (64 * lo.length ≤ 0) := by omega
-  simp only [ge_iff_le, h1, h2, if_false, Nat.sub_zero]
-  rw [overflowingShrVartime_overflow lo (Nat.le_refl _), expect_none (o := (uzero lo.length, 0)) rfl]
-  cases expect (overflowingShlVartime lo 0) <;> rfl
-
 /-- the arithmetic core of the `0 < s < BITS` case of the wide right shift -/
 theorem wide_shr_arith {L H P Q : Nat} (hP : 0 < P) :
     L / P + H * Q % (P * Q) + P * Q * (H / P) = (L + P * Q * H) / P := by
@@ -105,9 +94,9 @@ theorem wide_shr_arith {L H P Q : Nat} (hP : 0 < P) :
   rw [e, Nat.add_mul_div_left _ _ hP]
   ring
 
-/-- T05.3 (right, `BITS ≤ s < 2·BITS` and `0 < s < BITS`) -/
+/-- T05.3 (right, every `s < 2·BITS`) -/
 theorem shrVartimeWide_spec {lo hi : List Nat} (hlo : WF lo) (hhi : WF hi) (hl : hi.length = lo.length)
-    {s : Nat} (hs0 : 0 < s) (hs : s < 2 * (64 * lo.length)) :
+    {s : Nat} (hs : s < 2 * (64 * lo.length)) :
     ∃ rl rh, shrVartimeWide lo hi s = some ((rl, rh), WMAX) ∧
       val rl + B ^ lo.length * val rh = (val lo + B ^ lo.length * val hi) / 2 ^ s ∧
       WF rl ∧ WF rh ∧ rl.length = lo.length ∧ rh.length = lo.length := by
@@ -128,11 +117,10 @@ theorem shrVartimeWide_spec {lo hi : List Nat} (hlo : WF lo) (hhi : WF hi) (hl :
       Nat.zero_add]
   · simp only [hge, if_false]
     have hlt : s < 64 * lo.length := Nat.not_le.mp hge
-    have hlt2 : 64 * lo.length - s < 64 * lo.length := by omega
     have ⟨a1, a2, a3, a4⟩ := overflowingShrVartime_spec (s := s) hhi (by rw [hl]; exact hlt)
-    have ⟨b1, b2, b3, b4⟩ := overflowingShlVartime_spec (s := 64 * lo.length - s) hhi (by rw [hl]; exact hlt2)
+    have ⟨b2, b3, b4⟩ := shlV_val hhi (64 * lo.length - s)
     have ⟨c1, c2, c3, c4⟩ := overflowingShrVartime_spec hlo hlt
-    rw [expect_mk a1, expect_mk b1, expect_mk c1]
+    rw [expect_mk a1, expect_mk c1, wrappingShlVartimeU_eq hhi]
     have ⟨ov, ow, ol⟩ := val_ubitor c4 b4 (by rw [b3, c3, hl])
     refine ⟨_, _, rfl, ?_, ow, a4, by rw [ol, c3], by rw [a3, hl]⟩
     rw [ov, a2, b2, c2, hl]
@@ -150,15 +138,5 @@ theorem shrVartimeWide_spec {lo hi : List Nat} (hlo : WF lo) (hhi : WF hi) (hl :
 theorem shrVartimeWide_overflow (lo hi : List Nat) {s : Nat} (h : 2 * (64 * lo.length) ≤ s) :
     shrVartimeWide lo hi s = some ((uzero lo.length, uzero lo.length), 0) := by
   unfold shrVartimeWide; simp [h]
-
-theorem shrVartimeWide_zero (lo hi : List Nat) (hn : lo ≠ []) (hl : hi.length = lo.length) :
-    shrVartimeWide lo hi 0 = none := by
-  have hlen : 0 < lo.length := List.length_pos_iff.mpr hn
-  unfold shrVartimeWide
-  have h1 : ¬ (2 * (64 * lo.length) ≤ 0) := by omega
-  have h2 : ¬ (64 * lo.length ≤ 0) := by omega
-  simp only [ge_iff_le, h1, h2, if_false, Nat.sub_zero]
-  rw [overflowingShlVartime_overflow hi (by rw [hl]), expect_none (o := (uzero hi.length, 0)) rfl]
-  cases expect (overflowingShrVartime hi 0) <;> rfl
 
 end CB.Shift
